@@ -186,6 +186,10 @@ func genHexCase(t *rapid.T) *HexCase {
 		data = append(data, bd...)
 		data = append(data, genHexPart(t, &sb)...)
 	}
+	if rapid.IntRange(0, 3).Draw(t, "endcomment") == 0 {
+		// the text ends in a comment that is NOT followed by a line break
+		sb.WriteString(genWS(t, "ews") + genComment(t))
+	}
 	c := &HexCase{Text: sb.String(), Want: data, Bulk: bulk}
 	if c.Want == nil {
 		c.Want = []byte{}
@@ -610,7 +614,7 @@ func sanitizeStrings(c *DumpCase) {
 	}
 }
 
-const ruleC20 = "(hex) random byte strings rendered with random digit case, spaces/tabs/CR anywhere incl. between the two digits of a byte, line breaks at byte boundaries, ';' comments containing arbitrary text incl. ';' and hex digits, comment-only lines, 1 in 10 with one physical line of 1000 .. 200001 bytes (sizes around 4 KiB and 64 KiB; hex digits, a long comment, a whitespace run or a comment-only line) between two ordinary parts; 1 in 4 corrupted with one non-hex non-space character outside comments, 1 in 8 with one hex digit dropped (odd digit count) - both must be rejected; oracle: ParseAnnotatedHex(render(b)) == b. " +
+const ruleC20 = "(hex) random byte strings rendered with random digit case, spaces/tabs/CR anywhere incl. between the two digits of a byte, line breaks at byte boundaries, ';' comments containing arbitrary text incl. ';' and hex digits, comment-only lines, a final comment without line break, 1 in 10 with one physical line of 1000 .. 200001 bytes (sizes around 4 KiB and 64 KiB; hex digits, a long comment, a whitespace run or a comment-only line) between two ordinary parts; 1 in 4 corrupted with one non-hex non-space character outside comments, 1 in 8 with one hex digit dropped (odd digit count) - both must be rejected; oracle: ParseAnnotatedHex(render(b)) == b. " +
 	"(protodump) generated wire sequences (nesting depth <= 3, all four wire types, numbers up to 2^29-1, 1 in 8 length-delimited payloads 63..4097 bytes long), 1 in 4 mutated, x random disjoint -expand/-strings path sets over present and absent paths; dumpProto (working-tree source compiled into the harness) and the built binary (-file, stdin pipe, stdin file) are read by a tolerant reader into (depth, number, wire type, value) entries == refwire walk recursing into exactly the expand paths; malformed => error, never a panic. " +
 	"non-trivial = hex text with >= 1 comment and >= 1 line break; dump input with >= 1 length-delimited field and >= 1 path; distinct by text / (input, paths)"
 
